@@ -192,6 +192,8 @@ def check_C05(ctx):
     n = 500 if ctx.quick else 6000
     scs, meta = k3_batch(ctx, "c05", n)
     run_k3(ctx, "K3/K4 propositional engine", scs, ["c05_monotone"])
+    ctx.known_witness("partial-quantifier-two-stores", "d3b_partial_forget.py")
+    ctx.corpus(["d3_fq_forget.py"])
     ctx.cov["distribution"] = dist(meta)
     try:
         import checks_fol
